@@ -63,6 +63,30 @@ func caseLines(c *caseT, t *truth) []string {
 	if c.isCertRound() {
 		out = append(out, lbLines(1, c.certLb)...)
 	}
+	if c.history {
+		// the chain as the resolving entry points see it: which header (seed, declared cert size, version) stands at
+		// which height and which validator set (LB slot) its ValRoot commits to
+		hs := protocolHeights(c.cp, c.number)
+		out = append(out, fmt.Sprintf("LBCFG %d %d", c.cp.SeedLookBack, c.cp.StakeLookBack))
+		out = append(out, lbLines(2, c.lbDecoy)...)
+		seedSlot := 2
+		if c.stakeHeader == nil {
+			seedSlot = 0 // both look-backs are the same block
+		} else {
+			out = append(out, fmt.Sprintf("AT %d 1 %x %d 1 0", hs.stake, c.decoySeed[:], c.cp.CertValThreshold))
+		}
+		out = append(out, fmt.Sprintf("AT %d %d %x %d 1 %d", hs.seed, b2i(!c.seedHdr.noCons), c.seedHdr.seed[:], c.seedHdr.certT, seedSlot))
+		if c.isCertRound() {
+			out = append(out, lbLines(3, c.certLbDecoy)...)
+			cs := 3
+			if c.certStakeHeader == nil {
+				cs = 1
+			} else {
+				out = append(out, fmt.Sprintf("AT %d 1 %x %d %d 1", hs.certStake, c.decoySeed[:], c.cp.CertValThreshold, c.certHdr.version))
+			}
+			out = append(out, fmt.Sprintf("AT %d %d %x %d %d %d", hs.certSeed, b2i(!c.certHdr.noCons), c.certHdr.seed[:], c.certHdr.certT, c.certHdr.version, cs))
+		}
+	}
 	out = append(out, fmt.Sprintf("SEEDHDR %d %x", b2i(!c.seedHdr.noCons), c.seedHdr.seed[:]))
 	if c.isCertRound() {
 		out = append(out, fmt.Sprintf("CERTHDR 1 %d %d %x %d", c.certHdr.version, b2i(!c.certHdr.noCons), c.certHdr.seed[:], c.certHdr.certT))
@@ -102,7 +126,7 @@ type symUC struct {
 type sym struct {
 	bls                   bool
 	pT, vT, cT            uint64
-	lb                    [2]*symLB
+	lb                    [4]*symLB
 	seedHas               bool
 	seed                  common.Hash
 	certPresent, certHas  bool
